@@ -226,8 +226,8 @@ def bv_rotate_left(a, b, size):
     # define constant
     s = bit_vec_val(size, size)
 
-    # shift = b & (size  - 1)
-    shift = bvand(b, bvsub(s, bit_vec_val(1, size)))
+    # shift = b % size (the width need not be a power of two)
+    shift = bvurem(b, s)
 
     # (a << shift) | (a >> size - shift)
     rotate = bvor(bvshl(a, shift),
@@ -255,8 +255,8 @@ def bv_rotate_right(a, b, size):
     # define constant
     s = bit_vec_val(size, size)
 
-    # shift = b & (size  - 1)
-    shift = bvand(b, bvsub(s, bit_vec_val(1, size)))
+    # shift = b % size (the width need not be a power of two)
+    shift = bvurem(b, s)
 
     # (a >> shift) | (a << size - shift)
     rotate = bvor(bvlshr(a, shift),
